@@ -627,6 +627,13 @@ def random_sched(rng, nthreads, length, style):
             t = rng.randrange(nthreads)
             s += [t] * rng.randint(1, 12)
         return s[:length]
+    if style == 3:      # uniform prefix, then one thread stalled for a long stretch, then uniform again
+        a = rng.randint(0, max(0, length // 2))
+        stalled = rng.randrange(nthreads)
+        others = [t for t in range(nthreads) if t != stalled] or [stalled]
+        b = rng.randint(20, max(21, length // 2))
+        return ([rng.randrange(nthreads) for _ in range(a)] + [rng.choice(others) for _ in range(b)] +
+                [rng.randrange(nthreads) for _ in range(max(0, length - a - b))])
     # one thread stalled for a long time, others run
     stalled = rng.randrange(nthreads)
     others = [t for t in range(nthreads) if t != stalled] or [stalled]
